@@ -46,6 +46,10 @@ def _subtree(ctx: Ctx, prefix: List[int], expect: list, budget: int, c: Counter)
     c.mx('max_points', len(x.points))
     c.see('status', x.status)
     ctx.judge(x, c, prefix)
+    if len(c.samples) < 2:
+        k = len(prefix) - 1
+        c.sample({'schedule_with_deviation_at_point': k, 'enabled_there': [f'{n}:{l}' for n, l in x.points[k][0]] if 0 <= k < len(x.points) else None,
+                  'chosen': x.points[k][0][x.points[k][1]][0] if 0 <= k < len(x.points) else None, 'scheduling_points': len(x.points), 'outcome': x.status}, cap=2)
     if budget <= 0:
         return
     for i in range(len(prefix), len(x.points)):
